@@ -581,8 +581,12 @@ def _s3c(program, res):
                 and any(isinstance(x, ast.Name) and x.id in side_names for x in ast.walk(st.value)) \
                 and {x.id for x in ast.walk(st.value) if isinstance(x, ast.Name)} <= {key.id, "self"} | side_names
             if (isinstance(st.value, ast.Constant) and st.value.value is None) or own_name:
-                guards = " ".join(unparse(b.cond) for b, _l in g.lexical_guards(n))
-                if "not in common" in guards:
+                # a conjunct of the enclosing conditions (not an alternative inside an `or`) restricts the column to those outside `common`
+                conj_ = []
+                for b, _l in g.lexical_guards(n):
+                    if b.cond is not None and isinstance(b.stmt, ast.If) and _l is True:
+                        conj_.extend(b.cond.values if isinstance(b.cond, ast.BoolOp) and isinstance(b.cond.op, ast.And) else [b.cond])
+                if any(isinstance(e, ast.Compare) and len(e.ops) == 1 and isinstance(e.ops[0], ast.NotIn) and unparse(e.comparators[0]) == "common" for e in conj_):
                     res.ok("C16-S3", "SQL: pass-through term (None) only for columns that are not shared")
                 else:
                     res.fail_at("C16-S3", nj, "passthrough-for-shared-column", f"`{unparse(st)}` is not restricted to columns outside `common`", st)
